@@ -259,6 +259,23 @@ var c10TokCtxs = []c10Ctx{
 	{"top-level", "", "\n"},
 	{"route-body", "@ GET /a {\n", "\n}\n"},
 	{"expression", "@ GET /a {\n$ x = ", "\n> x\n}\n"},
+	// places where the grammar has a sub-parser of its own (each with its own loops over "until the closing token")
+	{"type-definition-fields", ": T {\n  f: int ", "\n}\n"},
+	{"field-annotation-arguments", ": T {\n  f: int @min(", ")\n}\n"},
+	{"field-annotation-arguments-unclosed", ": T {\n  f: int @min(", "\n}\n"},
+	{"route-header", "@ GET /a ", " {\n> 1\n}\n"},
+	{"function-parameters", "! f(", ") {\n> 1\n}\n"},
+	{"type-annotation", "@ GET /a {\n$ x: ", " = 1\n> x\n}\n"},
+	{"match-arm", "@ GET /a {\n$ x = match a {\n", " => 1\n_ => 0\n}\n> x\n}\n"},
+	{"object-literal", "@ GET /a {\n$ x = {", "}\n> x\n}\n"},
+	{"call-arguments", "@ GET /a {\n$ x = f(", ")\n> x\n}\n"},
+	{"index", "@ GET /a {\n$ x = a[", "]\n> x\n}\n"},
+	{"route-directive", "@ GET /a {\n+ ", "\n> 1\n}\n"},
+	{"route-injection", "@ GET /a {\n% ", "\n> 1\n}\n"},
+	{"import", "import ", "\n"},
+	{"websocket-route", "@ ws /c {\n", "\n}\n"},
+	{"for-header", "@ GET /a {\nfor ", " {\n> 1\n}\n}\n"},
+	{"switch-body", "@ GET /a {\nswitch a {\n", "\n}\n}\n"},
 }
 
 var c10ByteCtxs = []c10Ctx{
@@ -309,6 +326,47 @@ func c10NestFamilies() []c10Nest {
 		{Family: "typedef-field-type", Pre: ": T {\n  f: ", Open: "[", Mid: "int", Close: "]", Post: "\n}\n"},
 		{Family: "routes", Pre: "", Open: "@ GET /a {\n> 1\n}\n", Mid: "", Close: "", Post: ""},
 		{Family: "macro-body", Pre: "macro! m(x) {\n", Open: "if true {\n", Mid: "> x\n", Close: "}\n", Post: "}\n"},
+		// a statement that starts `name[` is parsed speculatively as an index assignment; blocks inside the index
+		// expression make a re-parse after a failed speculation cost a whole subtree per level
+		{Family: "index-statement-holding-a-block", Pre: "@ GET /a {\n", Open: "a[async {\n", Mid: "> 1\n", Close: "}]\n", Post: "}\n"},
+		{Family: "index-assignment-holding-a-block", Pre: "@ GET /a {\n", Open: "a[async {\n", Mid: "> 1\n", Close: "}] = 1\n", Post: "}\n"},
+		{Family: "index-field-call-holding-a-block", Pre: "@ GET /a {\n", Open: "a[async {\n", Mid: "> 1\n", Close: "}].b(1)\n", Post: "}\n"},
 		{Family: "quote-expr", Pre: "@ GET /a {\n$ x = ", Open: "quote {\n", Mid: "1", Close: "\n}", Post: "\n}\n"},
 	}
+}
+
+// ---------------------------------------------------------------- step-limit alignment
+
+// c10AlignFiles: hand-assembled programs in which an ASYNC whose body never ends (`JUMP 0`, body-relative) is
+// instruction number pos of the run (pos-1 fillers: PUSH/POP pairs, one leading PUSH when pos is even), and the same
+// one level down (an outer body that reaches an inner ASYNC as its own instruction number pos). Run under a step
+// limit L with pos = 1..L+4, so that the ASYNC sits before, exactly at, one past and beyond the limit: whatever
+// budget the body is given must stop it.
+func c10AlignFiles(limit int) (files [][]byte, labels []string) {
+	fill := func(n int) []byte {
+		var c []byte
+		if n%2 == 1 {
+			c = append(c, byte(vm.OpPush), 0, 0, 0, 0)
+			n--
+		}
+		for ; n > 0; n -= 2 {
+			c = append(c, byte(vm.OpPush), 0, 0, 0, 0, byte(vm.OpPop))
+		}
+		return c
+	}
+	spinner := []byte{byte(vm.OpAsync), 5, 0, 0, 0, byte(vm.OpJump), 0, 0, 0, 0}
+	for pos := 1; pos <= limit+4; pos++ {
+		code := append(fill(pos-1), spinner...)
+		code = append(code, byte(vm.OpHalt))
+		files = append(files, c10Wrap(c10SeqConsts, code))
+		labels = append(labels, fmt.Sprintf("step limit %d: ASYNC{JUMP 0} as instruction %d of the run", limit, pos))
+		inner := append(fill(pos-1), spinner...)
+		inner = append(inner, byte(vm.OpHalt))
+		outer := append([]byte{byte(vm.OpAsync)}, binary.LittleEndian.AppendUint32(nil, uint32(len(inner)))...)
+		outer = append(outer, inner...)
+		outer = append(outer, byte(vm.OpHalt))
+		files = append(files, c10Wrap(c10SeqConsts, outer))
+		labels = append(labels, fmt.Sprintf("step limit %d: ASYNC{ ...; ASYNC{JUMP 0} as instruction %d of the body }", limit, pos))
+	}
+	return
 }
